@@ -740,7 +740,50 @@ def case_size(f):
     return len(c.get("outs", [])) + len(c.get("ops", [])) + len(c.get("jobs", [])) + len(c.get("events", []))
 
 
+def shared_multi_case(stop, tables, n_sub):
+    """ONE multi-action object (as a phenomenon holds it) executed once per event: each response must carry the
+    outcome of its own execution, also after later executions (responses read only at the end)."""
+    subs = [TabAction("s%d" % i, {eid: tab[i] for eid, tab in tables.items()}) for i in range(n_sub)]
+    multi = BoboActionMultiSequential("m", subs, stop)
+    h = BoboActionHandlerBlocking()
+    eids = sorted(tables)
+    for eid in eids:
+        h.handle(multi, mk_event(int(eid[1:]), 1, 1))
+    bad = []
+    for eid in eids:
+        r = h.get_handler_response()
+        tab = tables[eid]
+        exp = []
+        for i in range(n_sub):
+            exp.append((tab[i][0], tab[i][1]))
+            if stop and not tab[i][0]:
+                break
+        got = [tuple(x) for x in r.data] if r is not None else None
+        if r is None or r.complex_event.event_id != eid or got != exp or r.success != all(x[0] for x in exp):
+            bad.append((eid, exp, got))
+    return bad
+
+
+def shared_multi(ctx, res):
+    rng = ctx.rng
+    for k in range(40 if ctx.quick else 400):
+        n_sub = rng.randint(1, 4)
+        n_ev = rng.randint(2, 4)
+        stop = rng.random() < 0.5
+        tables = {"e%d" % (k * 10 + j): [(rng.random() < 0.6, 100 * j + i, 0) for i in range(n_sub)] for j in range(n_ev)}
+        bad = shared_multi_case(stop, tables, n_sub)
+        res.note_case(("shared-multi", k, stop, repr(tables)), True)
+        res.count("shared_multi_batches")
+        if bad:
+            res.failures.append(dict(signature="multi-response-not-its-own-outcome",
+                                     what="one multi-action executed for %d events: response for %s reports %s, its own execution gave %s"
+                                          % (n_ev, bad[0][0], bad[0][2], bad[0][1]),
+                                     case=dict(kind="shared-multi", stop=stop, n_sub=n_sub,
+                                               tables={e: [list(x) for x in t] for e, t in tables.items()}), detail=None))
+
+
 def run(ctx, res):
+    shared_multi(ctx, res)
     rng = ctx.rng
     q = ctx.quick
     SLOW["budget"] = 15.0 if q else 60.0
@@ -958,7 +1001,17 @@ def _phen(p):
     return out
 
 
+def replay_shared(case):
+    tables = {e: [tuple(x) for x in t] for e, t in case["tables"].items()}
+    bad = shared_multi_case(case["stop"], tables, case["n_sub"])
+    print("oracle:", ("response for %s reports %s, its own execution gave %s" % (bad[0][0], bad[0][2], bad[0][1])) if bad
+          else "every response carries the outcome of its own execution")
+    return 1 if bad else 0
+
+
 def replay(obj):
+    if (obj.get("case") or {}).get("kind") == "shared-multi":
+        return replay_shared(obj["case"])
     case = obj.get("case") or {}
     kind = case.get("kind")
     if kind is None and obj.get("mismatches"):
